@@ -229,3 +229,76 @@ def _ancestors(n):
     while p is not None:
         yield p
         p = parent(p)
+
+
+def mutable_default_argument(ctx, funcs: Iterable[FunctionInfo]) -> List[Tuple[FunctionInfo, ast.AST, str]]:
+    """`def f(x=[])` / `{}` / `set()` whose default object is mutated in the body (directly, through an alias, or by handing it to
+    a mutating method): the default is created once, so one call's writes are visible to every later call."""
+    out = []
+    for f in funcs:
+        a = f.node.args
+        pos = a.posonlyargs + a.args
+        pairs = list(zip(pos[len(pos) - len(a.defaults):], a.defaults)) + [(p, d) for p, d in zip(a.kwonlyargs, a.kw_defaults) if d is not None]
+        for p, d in pairs:
+            if not _is_mutable_display(d):
+                continue
+            nm = p.arg
+            # re-bound before any use (`x = x or {}` is not enough: the default object itself is truthy-empty, `x = dict(x)` is)
+            for w in walk_shallow(f.node):
+                hit = None
+                if isinstance(w, (ast.Assign, ast.AugAssign)):
+                    for t in (w.targets if isinstance(w, ast.Assign) else [w.target]):
+                        if isinstance(t, ast.Subscript) and isinstance(t.value, ast.Name) and t.value.id == nm:
+                            hit = w
+                        if isinstance(w, ast.AugAssign) and isinstance(t, ast.Name) and t.id == nm and isinstance(d, (ast.List, ast.ListComp)):
+                            hit = w
+                elif isinstance(w, ast.Call) and isinstance(w.func, ast.Attribute) and w.func.attr in MUTATORS \
+                        and isinstance(w.func.value, ast.Name) and w.func.value.id == nm:
+                    hit = w
+                if hit is None:
+                    continue
+                # the write must be able to reach the default object: no unconditional re-binding of the name dominates it
+                cfg = ctx.cfg(f)
+                st = stmt_of(cfg, hit) if not isinstance(hit, ast.stmt) else hit
+                rebinds = [s for s in cfg.stmts() if isinstance(s, ast.Assign) and any(isinstance(t, ast.Name) and t.id == nm for t in s.targets)
+                           and not (isinstance(s.value, ast.BoolOp) and isinstance(s.value.op, ast.Or)
+                                    and any(isinstance(v, ast.Name) and v.id == nm for v in s.value.values))
+                           and not (isinstance(s.value, ast.Name) and s.value.id == nm)]
+                if st is not None and any(cfg.dominates(s, st) for s in rebinds if s is not st):
+                    continue
+                out.append((f, d, f"parameter `{nm}` has the mutable default `{ast.unparse(d)}` and `{norm(hit)[:60]}` writes into it: the default "
+                                  f"object is shared by all calls, so one call's entries are seen by the next"))
+                break
+    return out
+
+
+def late_binding_closure(ctx, funcs: Iterable[FunctionInfo]) -> List[Tuple[FunctionInfo, ast.AST, str]]:
+    """A lambda / nested def created inside a loop reads the loop variable and is *stored* (appended, put into a dict, assigned to
+    an attribute) instead of being called in the same iteration: when it is called later every closure sees the LAST value."""
+    out = []
+    for f in funcs:
+        for loop in walk_shallow(f.node):
+            if not isinstance(loop, (ast.For, ast.While)):
+                continue
+            lvars = {n.id for n in ast.walk(loop.target) if isinstance(n, ast.Name)} if isinstance(loop, ast.For) else set()
+            if not lvars:
+                continue
+            for lam in [n for b in loop.body for n in ast.walk(b) if isinstance(n, ast.Lambda)]:
+                params = {x.arg for x in lam.args.posonlyargs + lam.args.args + lam.args.kwonlyargs}
+                defaults_bind = {ast.unparse(d) for d in lam.args.defaults + [k for k in lam.args.kw_defaults if k is not None]}
+                free = {n.id for n in ast.walk(lam.body) if isinstance(n, ast.Name) and isinstance(n.ctx, ast.Load)} - params
+                captured = (free & lvars) - defaults_bind
+                if not captured:
+                    continue
+                par = parent(lam)
+                stored = False
+                if isinstance(par, ast.Call) and lam in par.args and isinstance(par.func, ast.Attribute) and par.func.attr in ("append", "insert", "setdefault", "add"):
+                    stored = True
+                if isinstance(par, ast.Assign) and par.value is lam and any(isinstance(t, (ast.Subscript, ast.Attribute)) for t in par.targets):
+                    stored = True
+                if isinstance(par, (ast.Dict, ast.List, ast.Tuple)):
+                    stored = True
+                if stored:
+                    out.append((f, lam, f"`{ast.unparse(lam)[:60]}` is created in a loop, reads the loop variable {sorted(captured)} and is stored for "
+                                        f"later: all stored closures will see the last value of {sorted(captured)}"))
+    return out
